@@ -87,6 +87,11 @@ func main() {
 	}
 }
 
+// adhocRun: the size of the run was overridden on the command line or the
+// tree under test is a deliberately broken one; evidence and replay files go
+// to adhoc/ sub-directories.
+var adhocRun bool
+
 type propCfg struct {
 	quickRuns, quickSecs       int
 	thoroughRuns, thoroughSecs int
@@ -109,6 +114,13 @@ var propOverrides = map[string]func(*propCfg){
 	"C39": func(c *propCfg) { c.quickRuns, c.quickSecs = 800, 90 },
 	"C07": func(c *propCfg) { c.quickRuns, c.quickSecs = 700, 110 },
 	"C13": func(c *propCfg) { c.quickRuns, c.quickSecs = 600, 110 },
+	"C14": func(c *propCfg) { c.quickRuns, c.quickSecs = 1200, 110 },
+	"C41": func(c *propCfg) {
+		c.race = true
+		c.quickRuns, c.quickSecs = 160, 150 // a race-detector run costs ~0.7 s of (mostly kernel) time and does not parallelise well in this VM
+		c.thoroughRuns, c.thoroughSecs = 5000, 3600
+		c.wallLimit = 480 * time.Second
+	},
 	"C11": func(c *propCfg) {
 		c.level = "fault_enumeration"
 		c.plans = func(base uint64, tier string) []*plan.Plan {
@@ -200,6 +212,7 @@ func cmdCheck(args []string) {
 			n = *runs
 		}
 	}
+	adhocRun = *runs > 0 || *secs > 0 || os.Getenv("VERIF_ADHOC") != ""
 	a := &agg{stats: map[string]int64{}, traces: map[string]bool{}, nontriv: map[string]bool{}, other: map[string]int{}, oosWhy: map[string]int{}}
 	deadline := time.Now().Add(time.Duration(budget) * time.Second)
 	workers := runtime.NumCPU()
@@ -290,7 +303,7 @@ func cmdCheck(args []string) {
 	}
 	// a run whose size was overridden on the command line is an ad-hoc
 	// experiment: it must not replace the evidence of the registered command
-	adhoc := *runs > 0 || *secs > 0 || os.Getenv("VERIF_ADHOC") != ""
+	adhoc := adhocRun
 	writeEvidence(prop, *tier, base, cfg, a, b, wall, buildS, newViol, knownViol, exhaustive, adhoc)
 	fmt.Printf("%s %s: runs=%d distinct=%d violations(new)=%d known=%d out_of_scope=%d infra=%d wall=%.0fs (build %.0fs)\n", prop, *tier, a.runs, len(a.nontriv), newViol, knownViol, a.oos, a.infra, wall, buildS)
 	if exit == 0 {
@@ -444,6 +457,9 @@ func cmdOne(args []string) {
 
 func writeReplay(prop string, p *plan.Plan, res *plan.Result, v plan.Violation) string {
 	dir := filepath.Join(verifDir, "replays")
+	if adhocRun {
+		dir = filepath.Join(dir, "adhoc") // experiments and seeded-break runs (ignored by git)
+	}
 	os.MkdirAll(dir, 0o755)
 	path := filepath.Join(dir, fmt.Sprintf("%s-%d.json", prop, p.Seed))
 	logTail := res.Log
